@@ -15,5 +15,5 @@ def gappedAccept : String := ">="
 def ungappedDrop : String := ">"
 def ungappedKeep : String := ">="
 /-- `_extend_table`: MemoryError iff new_rows * new_cols <op> max_size -/
-def extendLimit : String := ">="
+def extendLimit : String := ">"
 end BiotiteModel.Gen.C09
